@@ -17,7 +17,7 @@ var checks = map[string]checkDef{
 	"C16": {Harness: "c16", Instrument: true},
 	"C11": {Harness: "c11"},
 	"C12": {Harness: "c12"},
-	"C13": {Harness: "c13"},
+	"C13": {Harness: "c13", Stages: []stageDef{{Harness: "c13s", Instrument: true, Key: "concurrent_writers"}}},
 	"C14": {Harness: "c14"},
 	"C17": {Harness: "c17"},
 	"C18": {Harness: "c18", Instrument: true},
